@@ -91,3 +91,31 @@ Example C09_premises_satisfiable :
   (exists a, sat a (encode_kpc (exB 2) [])) /\ (~ exists a, sat a (encode_kpc (exB 1) [])).
 Proof. exact (conj ex_cover_2 (conj ex_no_cover_1 (conj ex_kpc_feasible_2 ex_kpc_infeasible_1))). Qed.
 Print Assumptions C09_premises_satisfiable.
+
+(* END TO END for MinPathCover (edge cover, nothing ignored), from hypotheses about the caller's input only (EndToEndCover.v): for
+   every DAG given with a topological order and adjacency lists accepted by Peel.peel_inputs_ok, the search over k = lb .. |E|
+   (solver deciding each generated model exactly, lb a valid lower bound) returns the least number of source-to-sink paths covering
+   every edge.  Derived in the proof: well-formedness of the augmented graph, a rank function, "every edge of a DAG lies on a
+   source-to-sink path" (so a cover with |E| paths exists), feasibility of the |E|-model by completeness. *)
+From FP Require Import EndToEnd1 EndToEnd2 EndToEndCover EndToEndExample.
+Theorem C09_minpathcover_end_to_end :
+  forall (V : list node) (E : list PathEnc.edge) (s t : node) (Pa Sa : list (node * list node)) (topo : list node)
+         (feasible : nat -> bool) (lb : nat) (sts : list raw),
+  NoDup V -> (forall e, In e E -> In (fst e) V /\ In (snd e) V) -> ~ In s V -> ~ In t V -> s <> t ->
+  Peel.peel_inputs_ok E Pa Sa topo = true ->
+  (forall k, feasible k = true <-> exists a, sat a (encode_kpc (cover_inst V E s t k) (synth V E s t))) ->
+  (forall i, (i < S (length E) - lb)%nat -> exists x, nth_error sts i = Some x /\
+             status_of x = if feasible (lb + i)%nat then Optimal else Infeasible) ->
+  (forall k, (k < lb)%nat -> feasible k = false) ->
+  exists kopt,
+    so_res (mpc_solve true lb (S (length E)) sts) = Solved kopt /\ (kopt <= length E)%nat /\
+    (exists P, path_cover (cover_inst V E s t kopt) (synth V E s t) P) /\
+    (forall k, (k < kopt)%nat -> ~ exists P, path_cover (cover_inst V E s t k) (synth V E s t) P).
+Proof. exact minpathcover_end_to_end. Qed.
+Print Assumptions C09_minpathcover_end_to_end.
+
+Example C09_end_to_end_premises_satisfiable :
+  NoDup xV /\ (forall e, In e xE -> In (fst e) xV /\ In (snd e) xV) /\ ~ In 0%N xV /\ ~ In 5%N xV /\ 0%N <> 5%N /\
+  Peel.peel_inputs_ok xE xPa xSa [1; 2; 3; 4]%N = true.
+Proof. destruct e2e_premises_satisfiable as (A & B & C & D & E' & F & _). exact (conj A (conj B (conj C (conj D (conj E' F))))). Qed.
+Print Assumptions C09_end_to_end_premises_satisfiable.
